@@ -30,16 +30,17 @@ import (
 type c10term struct {
 	v     ssa.Value
 	isLen bool
+	fld   int // k+1: the term speaks about field k of the struct VALUE v (c10_fields.go); 0: about v itself
 }
 
-func c10val(v ssa.Value) c10term { return c10term{v, false} }
-func c10len(v ssa.Value) c10term { return c10term{v, true} }
+func c10val(v ssa.Value) c10term { return c10term{v: v} }
+func c10len(v ssa.Value) c10term { return c10term{v: v, isLen: true} }
 func c10k(k int64) c10term {
-	return c10term{ssa.NewConst(constant.MakeInt64(k), types.Typ[types.Int]), false}
+	return c10term{v: ssa.NewConst(constant.MakeInt64(k), types.Typ[types.Int])}
 }
 
 const (
-	c10MaxDepth = 4
+	c10MaxDepth = 6
 	c10MaxLen   = int64(1) << 56 // no slice or string is longer than this (address space)
 	c10Inf      = int64(math.MaxInt64)
 )
@@ -79,6 +80,8 @@ type c10dbm struct {
 	imported map[*ssa.Function]bool
 	added    map[[2]int]int64 // tightest edge added so far per (u,v): keeps refinement rounds finite
 	settling bool
+	postDone bool
+	relDone  map[*ssa.Call]bool
 	asm      []c10asm // what is assumed beyond the branch facts (results of an inner call on the path a caller is on)
 }
 
@@ -115,11 +118,15 @@ func (px *c10prover) atAssume(b *ssa.BasicBlock, depth int, asm []c10asm) *c10db
 	d := &c10dbm{px: px, block: b, depth: depth, idx: map[c10term]int{}, imported: map[*ssa.Function]bool{}, added: map[[2]int]int64{}, asm: asm}
 	d.terms = append(d.terms, c10term{}) // node 0 = the constant zero
 	px.memo[key] = d
-	d.facts = factsAt(b)
+	d.facts = c10factsAt(b)
 	// an assumed truth value is a branch fact like any other (and is unfolded like one: ok := err == nil)
 	for _, a := range asm {
 		if a.kind == c10isTrue || a.kind == c10isFalse {
+			n := len(d.facts)
 			d.facts = appendCondFacts(d.facts, a.v, a.kind == c10isTrue, 0)
+			for _, f := range append([]Fact{}, d.facts[n:]...) {
+				d.facts = c10unfoldVerdict(d.facts, f, 0)
+			}
 		}
 	}
 	for _, f := range d.facts {
@@ -181,7 +188,7 @@ func (d *c10dbm) eq(x, y int, k int64) { // x = y + k
 }
 
 func (d *c10dbm) node(t c10term) int {
-	if !t.isLen {
+	if !t.isLen && t.fld == 0 {
 		if k, ok := constInt(t.v); ok {
 			// constants are shared by value
 			for i, o := range d.terms {
@@ -247,6 +254,10 @@ func c10fits(t types.Type, lo, hi int64) bool {
 
 // define adds what follows from the definition of t alone; definitions that need bounds of operands are queued.
 func (d *c10dbm) define(t c10term, i int) {
+	if t.fld != 0 {
+		d.defineField(t, i)
+		return
+	}
 	if t.isLen {
 		d.le(0, i, 0)         // len >= 0
 		d.le(i, 0, c10MaxLen) // and not astronomically large
@@ -512,6 +523,7 @@ func (d *c10dbm) rawLower(x int) (int64, bool) {
 
 // upper: the least proved c with x - y <= c.
 func (d *c10dbm) upper(x, y c10term) (int64, bool) {
+	d.importPost()
 	xi, yi := d.nodeOrZero(x), d.nodeOrZero(y)
 	d.settle()
 	return d.rawUpper(xi, yi)
@@ -519,6 +531,7 @@ func (d *c10dbm) upper(x, y c10term) (int64, bool) {
 
 // lower: the greatest proved c with x >= c.
 func (d *c10dbm) lower(x c10term) (int64, bool) {
+	d.importPost()
 	xi := d.nodeOrZero(x)
 	d.settle()
 	return d.rawLower(xi)
@@ -824,6 +837,8 @@ func c10paramTerms(f *ssa.Function) []c10term {
 			out = append(out, c10val(p))
 		case c10hasLen(p.Type()):
 			out = append(out, c10len(p))
+		default:
+			out = append(out, c10fieldTerms(p)...) // a struct passed by value: its integer and slice fields
 		}
 	}
 	return out
@@ -844,22 +859,21 @@ func (d *c10dbm) importParams(f *ssa.Function) {
 		return
 	}
 	pts := append([]c10term{{}}, c10paramTerms(f)...)
-	if len(pts) < 2 || len(pts) > 8 {
+	if len(pts) < 2 || len(pts) > 12 {
 		return
 	}
-	argOf := func(t c10term, cc *ssa.CallCommon) (c10term, bool) {
+	argOf := func(t c10term, site ssa.CallInstruction, sd *c10dbm) (c10term, bool) {
 		if t.v == nil {
 			return t, true
 		}
+		cc := site.Common()
 		for k, p := range f.Params {
 			if ssa.Value(p) == t.v {
 				if k >= len(cc.Args) {
 					return c10term{}, false
 				}
-				if t.isLen {
-					return c10len(cc.Args[k]), true
-				}
-				return c10termOf(cc.Args[k]), true
+				// (a field behind a pointer parameter: what the caller's memory holds there when it calls)
+				return sd.restate(t, cc.Args[k], site)
 			}
 		}
 		return c10term{}, false
@@ -878,8 +892,8 @@ func (d *c10dbm) importParams(f *ssa.Function) {
 			}
 			w, ok := int64(math.MinInt64), true
 			for k, s := range sites {
-				ta, ok1 := argOf(a, s.Common())
-				tb, ok2 := argOf(b, s.Common())
+				ta, ok1 := argOf(a, s, sds[k])
+				tb, ok2 := argOf(b, s, sds[k])
 				if !ok1 || !ok2 {
 					ok = false
 					break
@@ -1024,6 +1038,11 @@ func (d *c10dbm) importResult(t c10term, i int) {
 		call, _ = x.Tuple.(*ssa.Call)
 		idx = x.Index
 	}
+	d.importCallResult(t, i, call, idx)
+}
+
+// importCallResult: node i is (the length of / the field t.fld-1 of) result idx of call.
+func (d *c10dbm) importCallResult(t c10term, i int, call *ssa.Call, idx int) {
 	if call == nil || d.depth >= c10MaxDepth {
 		return
 	}
@@ -1038,23 +1057,10 @@ func (d *c10dbm) importResult(t c10term, i int) {
 	if g == nil || !isRepoFn(g) || len(g.Blocks) == 0 || g == call.Parent() {
 		return
 	}
+	d.importResultRelations(call)
 	kn := d.knownResults(call, idx)
 	// parameter terms of g and the corresponding argument terms of this call (zero first)
-	pts := []c10term{{}}
-	ats := []c10term{{}}
-	for k, p := range g.Params {
-		if k >= len(call.Call.Args) {
-			break
-		}
-		switch {
-		case isIntType(p.Type()):
-			pts = append(pts, c10val(p))
-			ats = append(ats, c10termOf(call.Call.Args[k]))
-		case c10hasLen(p.Type()):
-			pts = append(pts, c10len(p))
-			ats = append(ats, c10len(call.Call.Args[k]))
-		}
-	}
+	pts, ats := d.paramArgTerms(g, call)
 	if len(pts) > 6 {
 		pts, ats = pts[:6], ats[:6]
 	}
@@ -1073,11 +1079,12 @@ func (d *c10dbm) importResult(t c10term, i int) {
 		}
 		n++
 		rd := d.px.atAssume(r.Block(), d.depth+1, c10returnAsm(r, kn))
-		var rt c10term
-		if t.isLen {
-			rt = c10len(r.Results[idx])
-		} else {
-			rt = c10termOf(r.Results[idx])
+		rt, okRt := rd.restate(t, r.Results[idx], r)
+		if !okRt {
+			for k := range pts {
+				okUp[k], okDn[k] = false, false
+			}
+			return
 		}
 		for k, p := range pts {
 			if okUp[k] {
@@ -1124,7 +1131,7 @@ func c10certainlyNonNil(v ssa.Value, b *ssa.BasicBlock) bool {
 	if sentinelError(v) {
 		return true
 	}
-	return knownNonNil(b, sameVal(v))
+	return c10knownNonNil(b, sameVal(v))
 }
 
 // importPhi: a merged value lies within the hull of its inputs, each bounded where it flows in.
@@ -1141,12 +1148,7 @@ func (d *c10dbm) importPhi(t c10term, p *ssa.Phi, i int) {
 			return
 		}
 		pd := d.px.at(p.Block().Preds[k], d.depth+1)
-		var et c10term
-		if t.isLen {
-			et = c10len(e)
-		} else {
-			et = c10termOf(e)
-		}
+		et := c10re(t, e)
 		l, ok1 := pd.lower(et)
 		u, ok2 := pd.upper(et, c10term{})
 		okLo, okHi = okLo && ok1, okHi && ok2
